@@ -63,6 +63,9 @@ Definition clip_len (s : seg) : Q :=
 (* two parameter intervals share more than one point *)
 Definition intervals_overlap (i j : Q * Q) : bool :=
   Qltb (Qmax (fst i) (fst j)) (Qmin (snd i) (snd j)).
+(* length of the common part (negative or zero: none) *)
+Definition overlap_len (i j : Q * Q) : Q :=
+  Qmin (snd i) (snd j) - Qmax (fst i) (fst j).
 
 (* ---------- Sutherland–Hodgman against the unit square ---------- *)
 Definition polygon := list point.
